@@ -285,6 +285,7 @@ func (c *Conn) shutdown(abortErr error) error {
 
 	// Wait for work to stop.
 	c.mu.Unlock()
+	verifhook.Yield(670)
 	c.tasks.Wait()
 	verifhook.Yield(802)
 	c.mu.Lock()
@@ -299,6 +300,7 @@ func (c *Conn) shutdown(abortErr error) error {
 	c.answers = nil
 	c.embargoes = nil
 	c.mu.Unlock()
+	verifhook.Yield(671)
 
 	c.bootstrap.Release()
 	c.bootstrap = nil
@@ -491,6 +493,7 @@ func (c *Conn) handleBootstrap(ctx context.Context, id answerID) error {
 		return nil
 	}
 	c.mu.Unlock()
+	verifhook.Yield(660)
 	ret, send, release, err := c.newReturn(ctx)
 	if err != nil {
 		err = annotate(err).errorf("incoming bootstrap")
@@ -646,6 +649,7 @@ func (c *Conn) handleCall(ctx context.Context, call rpccp.Call, releaseCall capn
 		callCtx, ans.cancel = context.WithCancel(c.bgctx)
 		c.unlockSender()
 		c.mu.Unlock()
+		verifhook.Yield(610)
 		pcall := ent.client.RecvCall(callCtx, capnp.Recv{
 			Args:        p.args,
 			Method:      p.method,
@@ -655,6 +659,7 @@ func (c *Conn) handleCall(ctx context.Context, call rpccp.Call, releaseCall capn
 		// Place PipelineCaller into answer.  Since the receive goroutine is
 		// the only one that uses answer.pcall, it's fine that there's a
 		// time gap for this being set.
+		verifhook.Yield(611)
 		ans.setPipelineCaller(pcall)
 		return nil
 	case rpccp.MessageTarget_Which_promisedAnswer:
@@ -725,6 +730,7 @@ func (c *Conn) handleCall(ctx context.Context, call rpccp.Call, releaseCall capn
 			callCtx, ans.cancel = context.WithCancel(c.bgctx)
 			c.unlockSender()
 			c.mu.Unlock()
+			verifhook.Yield(612)
 			pcall := tgt.RecvCall(callCtx, capnp.Recv{
 				Args:        p.args,
 				Method:      p.method,
@@ -741,6 +747,7 @@ func (c *Conn) handleCall(ctx context.Context, call rpccp.Call, releaseCall capn
 			c.tasks.Add(1) // will be finished by answer.Return
 			c.unlockSender()
 			c.mu.Unlock()
+			verifhook.Yield(613)
 			pcall := tgt.PipelineRecv(callCtx, p.target.transform, capnp.Recv{
 				Args:        p.args,
 				Method:      p.method,
@@ -918,7 +925,9 @@ func (c *Conn) handleReturn(ctx context.Context, ret rpccp.Return, releaseRet ca
 			releaseRet()
 		}
 		c.mu.Unlock()
+		verifhook.Yield(620)
 		q.p.Fulfill(pr.result)
+		verifhook.Yield(621)
 		c.mu.Lock()
 	}
 	if err := c.tryLockSender(ctx); err != nil {
@@ -928,6 +937,7 @@ func (c *Conn) handleReturn(ctx context.Context, ret rpccp.Return, releaseRet ca
 		return nil
 	}
 	c.mu.Unlock()
+	verifhook.Yield(622)
 
 	// Send disembargoes.  Failing to send one of these just never lifts
 	// the embargo on our side, but doesn't cause a leak.
@@ -988,6 +998,7 @@ func (c *Conn) handleReturn(ctx context.Context, ret rpccp.Return, releaseRet ca
 		}
 	}
 
+	verifhook.Yield(623)
 	c.mu.Lock()
 	c.unlockSender()
 	q.flags |= finishSent
@@ -1087,11 +1098,13 @@ func (c *Conn) handleFinish(ctx context.Context, id answerID, releaseResultCaps 
 	if ans.releaseMsg != nil {
 		c.lockSender()
 		c.mu.Unlock()
+		verifhook.Yield(630)
 		ans.releaseMsg()
 		c.mu.Lock()
 		c.unlockSender()
 	}
 	c.mu.Unlock()
+	verifhook.Yield(631)
 	rl.release()
 	if err != nil {
 		return annotate(err).errorf("incoming finish: release result caps")
@@ -1190,6 +1203,7 @@ func (c *Conn) handleRelease(ctx context.Context, id exportID, count uint32) err
 	if err != nil {
 		return annotate(err).errorf("incoming release")
 	}
+	verifhook.Yield(640)
 	client.Release() // no-ops for nil
 	return nil
 }
@@ -1217,6 +1231,7 @@ func (c *Conn) handleDisembargo(ctx context.Context, d rpccp.Disembargo) error {
 		c.embargoes[id] = nil
 		c.embargoID.remove(uint32(id))
 		c.mu.Unlock()
+		verifhook.Yield(650)
 		e.lift()
 	case rpccp.Disembargo_context_Which_senderLoopback:
 		c.mu.Lock()
@@ -1254,6 +1269,7 @@ func (c *Conn) handleDisembargo(ctx context.Context, d rpccp.Disembargo) error {
 		}
 		client := ans.resultCapTable[iface.Capability()].AddRef()
 		c.mu.Unlock()
+		verifhook.Yield(651)
 		imp, ok := client.State().Brand.Value.(*importClient)
 		c.mu.Lock()
 		if !ok || imp.c != c {
@@ -1343,6 +1359,7 @@ func (c *Conn) sendMessage(ctx context.Context, f func(msg rpccp.Message) error)
 	}
 	c.mu.Unlock()
 	verifhook.Yield(804)
+	verifhook.Yield(600)
 	msg, send, release, err := c.transport.NewMessage(ctx)
 	if err != nil {
 		c.mu.Lock()
@@ -1358,6 +1375,7 @@ func (c *Conn) sendMessage(ctx context.Context, f func(msg rpccp.Message) error)
 	verifhook.Yield(805)
 	err = send()
 	release()
+	verifhook.Yield(601)
 	c.mu.Lock()
 	c.unlockSender()
 	if err != nil {
@@ -1382,6 +1400,7 @@ func (c *Conn) tryLockSender(ctx context.Context) error {
 		}
 		c.mu.Unlock()
 		verifhook.Yield(806)
+		verifhook.Yield(680)
 		select {
 		case <-s:
 		case <-ctx.Done():
@@ -1407,6 +1426,7 @@ func (c *Conn) lockSender() {
 		}
 		c.mu.Unlock()
 		verifhook.Yield(807)
+		verifhook.Yield(681)
 		<-s
 		c.mu.Lock()
 	}
